@@ -26,6 +26,24 @@ def main():
     specs = gen.c14_programs(t, seed())
     chk.extra["rule"] = "one evaluation = one call with every random field's inferred domain decided against the reference; distinct = distinct (program, call)"
     e1run.run_specs(chk, specs, KINDS, opts={"hooks": [hooks.bounds_hook]})
+    # the drawn target must be reachable: for every target t of a domain the real create_rand_domain_constraint /
+    # _build_swizzle_constraints path yields constraints that force f == t inside the domain (otherwise the remaining
+    # freedom is resolved by the solver's default model and some values are never produced)
+    from checks.c20 import _kernel, kernel_cfgs
+    from vf.common import parmap
+    cfgs = kernel_cfgs(t)
+    for (st, r), cfg in zip(parmap(_kernel, cfgs), cfgs):
+        if st != "ok":
+            chk.harness_error("kernel worker %s: %s" % (st, str(r)[:300]))
+            continue
+        chk.count("kernel%s" % (cfg,))
+        chk.q(r["verdict"] if r["verdict"] in ("unsat", "sat") else "unknown")
+        if r["verdict"] == "sat":
+            chk.violation({"kind": "swizzle_target", "signed": cfg[1]}, "width %d %s domain [%d,%d]: the randomising constraints for a drawn target do not "
+                          "determine the field, the rest is left to the solver's default model (values can be starved): %s" % (
+                              cfg[0], "signed" if cfg[1] else "unsigned", cfg[2], cfg[3], r["model"]), {"engine": "kernel", "cfg": cfg, "model": r["model"]})
+        elif r["verdict"] != "unsat":
+            chk.note_inconclusive("kernel %s: %s" % (cfg, r["verdict"]))
     chk.finish()
 
 
